@@ -102,14 +102,14 @@ impl SchedulerContext {
     }
 
     pub(super) fn rewind_validation_to(&self, index: usize) {
+        #[cfg(feature = "verif")]
+        crate::verif::event(crate::verif::Event::Rewind { index });
         if index >= self.num_txs {
             return;
         }
         // Publish invalidation before making the index claimable. Finality advances contiguously
         // and checks status plus this timestamp under transaction locks, so a validation predating
         // this rewind cannot enter the stable prefix afterward.
-        #[cfg(feature = "verif")]
-        crate::verif::event(crate::verif::Event::Rewind { index });
         let timestamp = self.logical_clock.fetch_add(1, Ordering::AcqRel);
         #[cfg(feature = "verif")]
         crate::verif::point(crate::verif::Point::RewindAfterTick, index, timestamp);
